@@ -778,5 +778,49 @@ theorem fixes_conservative (r : IndexRange) (m e i l : Nat) (ls : List Nat) (a b
   exact ⟨h1, h2, h3, h4, h5, h6, tensorTryFrom_fix_conservative shape n,
     clipRangeShape_fix_conservative shape ranges, rangeExceedsBounds_fix_conservative shape oranges⟩
 
+/-! ## 12. Dimension lookups -/
+
+/-- **`length_of` / `last_index_of` / `position_of`** (on `Tensor`, `TensorView` and in
+    `dimensions::`) answer `Some` exactly for a name of the shape — for a shape with distinct
+    names: the length paired with that name, that length minus one (saturating), and the position
+    at which the name stands — and `None` for every other name. -/
+theorem dim_lookup_total (shape : Shape ν) (name : ν) :
+    ((lengthOf shape name).isSome = true ↔ name ∈ shape.map (·.1)) ∧
+    ((lastIndexOf shape name).isSome = true ↔ name ∈ shape.map (·.1)) ∧
+    (∀ l, lengthOf shape name = some l → (name, l) ∈ shape ∧ lastIndexOf shape name = some (l - 1)) ∧
+    ((shape.map (·.1)).Nodup → ∀ l, (name, l) ∈ shape → lengthOf shape name = some l) := by
+  have hfind : ∀ l, lengthOf shape name = some l → (name, l) ∈ shape := by
+    intro l h
+    simp only [lengthOf, Option.map_eq_some_iff] at h
+    obtain ⟨d, hd, rfl⟩ := h
+    have h1 := List.find?_some hd
+    have h2 := List.mem_of_find?_eq_some hd
+    simp only [decide_eq_true_eq] at h1
+    rw [← h1]; exact h2
+  have hsome : (lengthOf shape name).isSome = true ↔ name ∈ shape.map (·.1) := by
+    simp only [lengthOf, Option.isSome_map, List.find?_isSome, decide_eq_true_eq, List.mem_map]
+  refine ⟨hsome, ?_, ?_, ?_⟩
+  · simp only [lastIndexOf, Option.isSome_map]; exact hsome
+  · intro l h
+    exact ⟨hfind l h, by simp [lastIndexOf, h]⟩
+  · intro hnd l hmem
+    cases h : lengthOf shape name with
+    | none =>
+      have : (lengthOf shape name).isSome = true := hsome.mpr (List.mem_map.mpr ⟨(name, l), hmem, rfl⟩)
+      rw [h] at this; simp at this
+    | some l' =>
+      have hm' := hfind l' h
+      -- two entries with the same name in a list with distinct names are the same entry
+      have : (name, l') = (name, l) := by
+        have hinj := List.inj_on_of_nodup_map hnd
+        exact hinj hm' hmem rfl
+      simp only [Prod.mk.injEq, true_and] at this
+      rw [this]
+
+/-- Non-vacuity on the shape of the seeded change. -/
+example : lengthOf [("c", 3), ("r", 2)] "r" = some 2 ∧ lastIndexOf [("c", 3), ("r", 2)] "c" = some 2 ∧
+    lengthOf [("c", 3), ("r", 2)] "x" = none ∧ positionOf [("c", 3), ("r", 2)] "r" = some 1 := by
+  refine ⟨by decide, by decide, by decide, by decide⟩
+
 
 end EasyMl.C16
